@@ -14,6 +14,9 @@ TS_RULES = {"ruleLatentDOM", "ruleLatentDOY", "ruleLatentDOW", "ruleLatentPOD", 
 
 
 QUICK_PODS = ["morning", "afternoon", "night", "last", "veryearlymorning", "noon"]
+THOROUGH_PODS = ["morning", "forenoon", "afternoon", "noon", "evening", "night", "first", "last", "earlymorning", "lateevening", "veryearlymorning", "verylatenight",
+                 "earlyearlymorning", "latelatenight", "veryearlyearlymorning", "verylatelatenight", "earlylast", "latefirst", "earlyafternoon", "lateforenoon",
+                 "earlynoon", "lateevening", "verylateevening", "veryearlyafternoon"]
 MULTI_PODS = ["morning", "night", "veryearlymorning"]
 CLAUSES = {"C02": ["exc", "wf", "closure", "span"], "C01": ["exc", "wf"], "C15": ["frame"], "C12": ["frame"]}
 PER_RULE_QUICK = {"C02": 5, "C01": 2, "C15": 2, "C12": 1}
@@ -25,6 +28,7 @@ def wf_jobs(prop, tier, rules=None, cell=(2024, 2), lift=True, timeout=None, ext
     b = wfgen.build(extra=extra)
     qp = sorted(PODS.index(x) for x in QUICK_PODS if x in PODS)
     mp = sorted(PODS.index(x) for x in MULTI_PODS if x in PODS)
+    tp = sorted({PODS.index(x) for x in THOROUGH_PODS if x in PODS})
     per_rule = {}
     for key, ob in sorted(b["obligations"].items()):
         per_rule.setdefault(ob["rule"], []).append(key)
@@ -68,10 +72,12 @@ def wf_jobs(prop, tier, rules=None, cell=(2024, 2), lift=True, timeout=None, ext
             spec["pods"] = mp
         elif npod and tier == "quick":
             spec["pods"] = qp
+        elif npod and prop != "C19":
+            spec["pods"] = tp          # thorough: 24 table keys; every key of the table: POD-CLOSED (C19), C06 and C04
         variants = [(spec, "")]
         if name in TS_RULES and prop in ("C01", "C02"):
             # rules that read the reference time: more year-month cells (after a leap day, year end)
-            variants = [(dict(spec, _cell=c), "/ts%d-%02d" % c) for c in ([(2024, 2), (2024, 3)] if tier == "quick" else [(2024, 2), (2024, 3), (2023, 12), (2023, 2), (2024, 12), (2028, 6)])]
+            variants = [(dict(spec, _cell=c), "/ts%d-%02d" % c) for c in ([(2024, 2), (2024, 3)] if tier == "quick" else [(2024, 2), (2024, 3), (2023, 12), (2023, 2)])]
             if name == "ruleLatentDOY" and tier == "quick":
                 variants = [(dict(v, ts_days="first"), sfx) for v, sfx in variants]   # exact contract over whole months: C04
         if name == "ruleTimeDuration" and prop in ("C15", "C12"):
